@@ -245,7 +245,7 @@ def conc_main(path: str) -> int:
     scenario = getattr(mod, case["scenario"])
     failed, checked, err, notes = E.run_concrete(scenario, dict(case.get("cfg", {})), payload["values"])
     want = payload["obligation"]
-    hit = [f for f in failed if f["name"] == want]
+    hit = [f for f in failed if f["name"] == want or (want.startswith("no-exception:") and f["name"].startswith("no-exception:"))]
     res = {
         "reproduced": bool(hit),
         "failed": failed[:10],
